@@ -1,5 +1,6 @@
 #!/bin/bash
-# matrix.sh [seeded dirs...]: runs every check (quick) against every seeded change in scratch worktrees
+# matrix.sh [seeded dirs...]: runs every check (quick; with MATRIX_ONLY_CAUGHT=1 only the checks named in
+# meta.json's caught_now_by) against every seeded change in scratch worktrees
 # and writes seeded/<name>/matrix.txt with one "check rc classes" line per property.
 # The checks are run from a snapshot of /verif's HEAD (a git worktree), so that editing /verif while the
 # matrix runs (hours) does not mix versions. MATRIX_P = parallel changes (default 3).
@@ -17,7 +18,14 @@ one() {
   git -C /repo worktree add -q "$WT" HEAD || return
   if ! (cd "$WT" && git apply "/verif/$d/patch.diff"); then echo "patch does not apply" > "/verif/$d/matrix.txt"; git -C /repo worktree remove --force "$WT"; return; fi
   : > "/verif/$d/matrix.txt.tmp"
-  for id in C04 C05 C06 C10 C12 C13 C16 C17 C20; do
+  ids="C04 C05 C06 C10 C12 C13 C16 C17 C20"
+  if [ "${MATRIX_ONLY_CAUGHT:-0}" = 1 ]; then
+    # only the checks meta.json names under caught_now_by (a re-confirmation at the current
+    # version of the checks, not the full cross-matrix)
+    ids=$(python3 -c "import json,re,sys; print(' '.join(re.findall(r'C\d\d', str(json.load(open('/verif/$d/meta.json')).get('caught_now_by','')))))")
+    [ -z "$ids" ] && ids="C04 C05 C06 C10 C12 C13 C16 C17 C20"
+  fi
+  for id in $ids; do
     out=$(cd "$SNAP" && VERIF_OUT=/tmp/mx-out-$name VERIF_REPO="$WT" ./run.sh $id quick 2>&1); rc=$?
     cls=$(echo "$out" | grep -E "^violation class=|^class: " | sed -E 's/^violation class=([^:]*):.*/\1/; s/^class: //' | sort -u | tr '\n' ' ')
     echo "$id rc=$rc $cls" >> "/verif/$d/matrix.txt.tmp"
